@@ -18,8 +18,9 @@ import struct
 import zipfile
 
 from run import Broken, Violation
+from props import c03_bound as B
 
-GEN = ["Units"]
+GEN = ["Units", "UnitsBound"]
 RULE = ("type-directed random instances of the 17 *Content dataclasses (texts drawn from words x every Python "
         "whitespace / line-boundary character, heading styles, page breaks, anchors, arbitrary slide numbers) "
         "+ extraction results of every file under tests/resources + generated PPTX/EPUB zips, PPT record streams, "
@@ -30,7 +31,12 @@ RULE = ("type-directed random instances of the 17 *Content dataclasses (texts dr
         "dates, senders, subjects, repeated Message-IDs); RTF bodies are generated as the scanner's event stream (characters "
         "beyond U+FFFF as \\uN pairs, signed or unsigned, or literal; \\'hh; \\par/\\line/\\tab; groups around runs; \\page and "
         "\\sbkpage, also inside groups; wild: unpaired surrogate halves); distinct = distinct serialised request; non-trivial = "
-        "at least one non-empty text field")
+        "at least one non-empty text field; + written mailboxes (mboxo / mboxrd / CRLF) whose body lines are delimiter look-alikes "
+        "(>From / >>From / indented / re-cased / From: lines that end like a separator) at every body position, arbitrary "
+        "mailbox-like byte strings, generated PDFs whose pages share content streams / resource dictionaries (inline, "
+        "indirect, inherited from the page tree) / fonts / forms in every combination (all 2-page combinations on every run), "
+        "RTF page text that looks like \\page, ODP / ODS / PPTX parts that share a name or a part, and twin pairs of every "
+        "document kind (same structure, other text) read one after the other in one process")
 ASSUMPTIONS = [
     "CPython str.strip/split/splitlines/lower/join are modelled (whitespace and line-boundary sets regenerated "
     "from the running interpreter each run); strings with lone surrogates are outside the model (skipped, counted)",
@@ -44,8 +50,10 @@ ASSUMPTIONS = [
     "RTF: _strip_rtf_full_with_pages is modelled from the scanner's event stream on (per-page buffers, _combine_surrogates, "
     "page flush); which characters / breaks a given RTF source produces (control-word scanning, group skipping) is exercised "
     "for real on generated RTF whose event stream is known by construction, not modelled",
-    "XLSX / ODS / ODP / mbox reading loops are not in the Lean model beyond their enumerate() / split: their source order is "
-    "judged by the token-document oracle only (openpyxl's sheet order is third-party)",
+    "XLSX / ODS / ODP reading loops are not in the Lean model beyond their enumerate(): their source order is "
+    "judged by the token-document oracle only (openpyxl's sheet order is third-party); read_mbox_format_mail is modelled as "
+    "map parse . mboxSplit on the raw bytes (parse = the real message parser, run by the harness on the model's pieces), read_pdf "
+    "as pdfUnits of the page texts extracted from each page in isolation (fresh pypdf reader per page)",
 ]
 TRUSTED = ["model of str.strip/splitlines/split in S2T/Model/Units.lean (tied by this correspondence)",
            "harness-side re-statement of DocxContent's anchor indexing (6 lines) and heading_level (regex from source)",
@@ -888,6 +896,8 @@ def correspondence(ctx):
     mism += _corr_epub(ctx, broken)
     mism += _corr_mbox(ctx, broken)
     mism += _corr_rtf(ctx, broken)
+    mism += B.corr_mbox_read(ctx, broken, s1)
+    mism += B.corr_pdf(ctx, broken, diff, impl, ser)
     ctx.coverage["mismatches"] = mism
     # 4. the property oracle itself (independent of the model) on a small budget every run
     for v in _oracle(ctx, [], ctx.n(6, 60)):
@@ -1570,6 +1580,12 @@ def _oracle(ctx, seeds, budget):
             d = c["ppt_doc"]
             for key, what in ppt_doc_check(d["list"], d["cont"], d["raw"]):
                 _viol(out, key, what, {"ppt_doc": d})
+        if "pdf" in c:
+            for key, what in B.pdf_check(c["pdf"]):
+                _viol(out, key, what, {"pdf": B.shrink_pdf(c["pdf"])})
+        if "mbox_tok" in c:
+            for key, what in B.mbox_tok_check(c["mbox_tok"]):
+                _viol(out, key, what, {"mbox_tok": B.shrink_mbox(c["mbox_tok"])})
     # fixtures
     for path, obj in fixtures():
         r = ser(obj)
@@ -1598,6 +1614,16 @@ def _oracle(ctx, seeds, budget):
     # real files
     for key, what, rep in e2e_checks(rng, budget):
         _viol(out, key, what, rep)
+    # written mailboxes (delimiter look-alike body lines) and PDFs whose pages share objects
+    for key, what, rep in B.e2e(rng, budget):
+        if not any(v.key == key for v in out):
+            if "pdf" in rep:
+                rep = {"pdf": B.shrink_pdf(rep["pdf"])}
+                what = (B.pdf_check(rep["pdf"]) or [(key, what)])[0][1]
+            elif "mbox_tok" in rep:
+                rep = {"mbox_tok": B.shrink_mbox(rep["mbox_tok"])}
+                what = (B.mbox_tok_check(rep["mbox_tok"]) or [(key, what)])[0][1]
+            _viol(out, key, what, rep)
     return out
 
 
@@ -1713,6 +1739,14 @@ def replay(ctx, payload):
         msgs = [w for _, w in epub_case_check(rep["epub"])]
     elif "seq_doc" in rep:
         msgs = [w for _, w in seq_doc_check(rep["seq_doc"])]
+    elif "pdf" in rep:
+        msgs = [w for _, w in B.pdf_check(rep["pdf"])]
+    elif "mbox_tok" in rep:
+        msgs = [w for _, w in B.mbox_tok_check(rep["mbox_tok"])]
+    elif "rtf_look" in rep or "dup" in rep:
+        msgs = [w for _, w in B.single_check(rep)]
+    elif "history" in rep:
+        msgs = [w for _, w in B.history_check(rep["history"])]
     elif "mbox" in rep:
         from sharepoint2text.parsing.extractors.mail.mbox_email_extractor import read_mbox_format_mail
         data = rep["mbox"].encode("latin-1")
